@@ -134,6 +134,8 @@ type Runner struct {
 	// issued: which entries remain depends on the unspecified directory order,
 	// so later reads on that handle are compared by count only.
 	partial map[int]bool
+	Guard   time.Duration // see DefaultGuard
+	Dead    bool
 }
 
 func (r *Runner) markPartial(h int, yes bool) {
@@ -150,10 +152,19 @@ func (r *Runner) markPartial(h int, yes bool) {
 func (r *Runner) LastTemp() string { return r.lastTemp }
 
 // NewRunner returns a runner for fsys.
-func NewRunner(fsys FS) *Runner { return &Runner{FS: fsys, Handles: map[int]avfs.File{}} }
+func NewRunner(fsys FS) *Runner {
+	r := &Runner{FS: fsys, Handles: map[int]avfs.File{}, Guard: DefaultGuard}
+	if _, ok := fsys.(OSFS); ok {
+		r.Guard = 0
+	}
+	return r
+}
 
 // CloseAll closes every handle still open (end of a case).
 func (r *Runner) CloseAll() {
+	if r.Dead {
+		return
+	}
 	for k, h := range r.Handles {
 		func() {
 			defer func() { _ = recover() }()
@@ -246,8 +257,46 @@ func entriesString(ents []fs.DirEntry) string {
 // ErrSentinel is returned by a WalkDir callback with Act == 3.
 var ErrSentinel = fmt.Errorf("verif sentinel")
 
-// Do executes one op; a panic of the code under test becomes Err "PANIC:...".
-func (r *Runner) Do(o Op) (out Out) {
+// DefaultGuard bounds one call on an emulated file system: a call on a tree of a
+// few dozen nodes takes microseconds, only a self-deadlock or an endless loop
+// reaches the bound. The outcome is then "HANG" and the runner is dead (the
+// stuck goroutine may hold locks): every later op answers HANG at once.
+// Deadlocks are decided exactly by C07; here the bound only keeps a check
+// from wedging. A zero Guard disables it (kernel side: the op must stay on the
+// oracle thread).
+var DefaultGuard = func() time.Duration {
+	if v := os.Getenv("VERIF_HANG_MS"); v != "" {
+		var n int
+		if _, err := fmt.Sscan(v, &n); err == nil && n > 0 {
+			return time.Duration(n) * time.Millisecond
+		}
+	}
+	return 30 * time.Second
+}()
+
+// Do executes one op under the runner's guard.
+func (r *Runner) Do(o Op) Out {
+	if r.Guard <= 0 {
+		return r.do(o)
+	}
+	if r.Dead {
+		return Out{Err: "HANG"}
+	}
+	ch := make(chan Out, 1)
+	go func() { ch <- r.do(o) }()
+	t := time.NewTimer(r.Guard)
+	defer t.Stop()
+	select {
+	case out := <-ch:
+		return out
+	case <-t.C:
+		r.Dead = true
+		return Out{Err: "HANG", Note: "no return within " + r.Guard.String()}
+	}
+}
+
+// do executes one op; a panic of the code under test becomes Err "PANIC".
+func (r *Runner) do(o Op) (out Out) {
 	defer func() {
 		if p := recover(); p != nil {
 			// the panic text is kept for the report but is not part of the comparison
